@@ -191,5 +191,30 @@ def check(run, ctx):
             run.finding(M8, f"{mod}._extract_numeric_value", f"exponent-test:{norm(t)}", f"`{norm(t)}` sends every literal containing the letter e to float(): hex literals such as 0xE0 or 0x1e raise ValueError there and are silently dropped", f.loc)
         else:
             run.undecided(M8, f"{mod}._extract_numeric_value", f"unrecognised decision {norm(t)}")
+    M9 = run.rule("M9", "the parsed MagicNumberConfig is not stored on the rule instance without a language key", floor=1,
+                  decides="allowed_numbers / max_small_integer of each file's own language apply, whatever file the run saw first")
+    recs = [r_ for r_ in shared.config_memoisation(ctx, L) if r_["rule"] == rule.short]
+    run.require(bool(recs), "MagicNumberRule: no config-loading method found")
+    for rec in recs:
+        if rec["bad"]:
+            run.finding(M9, f"{rec['rule']}.{rec['name']}", f"memoised:{rec['store']}", f"{rec['func'].qual} keeps the parsed configuration on the rule instance ({rec['store']}) with no test of the file's language: the language-specific allowed_numbers of the first file decide every later file", rec["func"].loc)
+        else:
+            run.ok(M9, f"{rec['rule']}.{rec['name']}", "no instance-level memoisation of the parsed configuration")
+
+    M10 = run.rule("M10", "enclosing-context exemptions (Rust const/static item, TypeScript enum) climb to the root: the ancestor loop is left early only by acceptance", floor=2,
+                   decides="a literal anywhere inside a const/static initialiser or an enum body is exempt, however deeply it is nested (blocks, closures, calls)")
+    for mod, fn in (("rust_analyzer", "is_constant_definition"), ("typescript_analyzer", "is_enum_context")):
+        f = next((x for x in repo.funcs_in(f"{PKG}.{mod}.") if x.name == fn), None)
+        run.require(f is not None, f"{mod}.{fn} vanished")
+        walks = shared.ancestor_walks(f)
+        if not walks:
+            run.undecided(M10, f"{mod}.{fn}", "no ancestor loop recognised")
+            continue
+        wk = walks[0]
+        if wk["to_root"] and not wk["early"] and not wk["conditional_step"]:
+            run.ok(M10, f"{mod}.{fn}", "walks every ancestor; only acceptance ends the loop")
+        else:
+            why = norm(wk["early"][0]) if wk["early"] else (norm(wk["loop"].test) if not wk["to_root"] else "conditional step")
+            run.finding(M10, f"{mod}.{fn}", f"walk-cut:{why}", f"{fn}: the ancestor walk can stop before the root (`{why}`): a literal nested in a block, closure or call inside the exempt item is reported although the item is exempt", f"{f.module.rel}:{(wk['early'][0] if wk['early'] else wk['loop']).lineno}")
     run.extra["call_resolution"] = f"{cg.n_resolved}/{cg.n_calls}"
     return __doc__
